@@ -162,16 +162,22 @@ impl BuildHasher for RevBuild {
     }
 }
 
-// ---- serde: an Item travels as one u16 (key << 8 | payload), a priority as one u8
+// ---- serde: an Item travels as the 2-tuple (key, payload), a priority as one u8. (Packing
+// ---- key and payload into one integer would hide the concrete key from the solver's
+// ---- constant propagation and make table lengths symbolic after deserialization.)
 impl serde::Serialize for Item {
     fn serialize<S: serde::Serializer>(&self, s: S) -> Result<S::Ok, S::Error> {
-        s.serialize_u16(((self.key as u16) << 8) | self.pay as u16)
+        use serde::ser::SerializeTuple;
+        let mut t = s.serialize_tuple(2)?;
+        t.serialize_element(&self.key)?;
+        t.serialize_element(&self.pay)?;
+        t.end()
     }
 }
 impl<'de> serde::Deserialize<'de> for Item {
     fn deserialize<D: serde::Deserializer<'de>>(d: D) -> Result<Self, D::Error> {
-        let x = u16::deserialize(d)?;
-        Ok(Item::new((x >> 8) as u8, x as u8))
+        let (key, pay) = <(u8, u8)>::deserialize(d)?;
+        Ok(Item::new(key, pay))
     }
 }
 impl serde::Serialize for Pr {
